@@ -222,6 +222,9 @@ def step (st : DState) (line : String) : DState × String :=
     | none => (st, "unsupported")
     | some tis => (st, "toks\t" ++ " ".intercalate (tis.map fun ti =>
         s!"{ti.start},{ti.stop},1,{hexOfString ti.text}," ++ (match ti.tok with | some t => encTok t | none => "-")))
+  | ["codehyp", code, bits] =>
+    -- hypothesis of the separator-independence theorem of unit conversion on one code and amount
+    (st, if codeTextOK (F := Float) (stringOfHex code) (floatOfHex bits) then "1" else "0")
   | ["lexui", lang, t] =>
     -- the highlight requests of the model's tokenizers, in the format of the implementation's operation log
     let line := (stringOfHex t).toList
